@@ -301,11 +301,12 @@ theorem done_flatten_nil (s : Run) (h : s.done = true) : s.queues.flatten = [] :
 
 /-! ### a record is one line -/
 
-/-- characters a JSON number is made of -/
-def isNumChar (c : Char) : Bool :=
-  c.isDigit || c == '+' || c == '-' || c == '.' || c == 'e' || c == 'E'
+/-- a number lexeme: not empty, number characters only -/
+def lexOk (l : String) : Bool := !l.toList.isEmpty && l.toList.all isNumChar
 
-def lexOk (l : String) : Bool := l.toList.all isNumChar
+theorem lexOk_all (l : String) (h : lexOk l = true) : ∀ c ∈ l.toList, isNumChar c = true := by
+  simp only [lexOk, Bool.and_eq_true] at h
+  exact List.all_eq_true.1 h.2
 
 mutual
 /-- every number lexeme inside the value consists of number characters -/
@@ -370,7 +371,7 @@ theorem joinWith_not_mem (c : Char) (sep : List Char) (ts : List (List Char)) (h
 
 theorem lexOk_no_newline (l : String) (h : lexOk l = true) : '\n' ∉ l.toList := by
   intro hm
-  have := List.all_eq_true.1 h _ hm
+  have := lexOk_all l h _ hm
   revert this
   decide
 
@@ -617,7 +618,7 @@ theorem commaSafe_compact_of_scalar (v : Json) (h : ScalarCell v) : CommaSafe (c
   | bool b => cases b <;> decide
   | num l b =>
     simp only [compact]
-    exact scan_plain _ _ (fun c hc => isNumChar_plain c (List.all_eq_true.1 h c hc))
+    exact scan_plain _ _ (fun c hc => isNumChar_plain c (lexOk_all l h c hc))
   | str s =>
     simp only [compact, quoteStr, scan, if_true, Bool.not_false]
     rw [scan_append _ _ _ _ (scan_quoted _ (escapeChars_no_quote _ h))]
